@@ -33,7 +33,7 @@ ENV = dict(os.environ, CARGO_NET_OFFLINE="true", CARGO_TARGET_DIR=TARGET)
 ENV.pop("RUSTFLAGS", None)  # the harness' .cargo/config.toml supplies --cfg regexml_verif
 
 # per property: time caps (s, per shard) and floors
-DEFAULT_CFG = {"quick_cap": 45, "thorough_cap": 900, "min_held": 1000, "min_distinct": 500}
+DEFAULT_CFG = {"quick_cap": 180, "thorough_cap": 1500, "min_held": 1000, "min_distinct": 500}
 CFG = {
     "C05": {"fuel": 2_000_000},
     "C06": {"fuel": 200_000_000},
@@ -230,6 +230,34 @@ def ablation_replay(prop, items):
             except Exception:
                 pass
     return results
+
+
+def reminimise(prop, violations, outdir):
+    """Minimise witnesses the workers left as found: feed them to one worker as a corpus (corpus
+    cases are minimised first, with a budget large enough for all of them) and pick the minimised
+    forms out of its report by their original case. A witness the worker does not report again
+    is returned unchanged."""
+    os.makedirs(outdir, exist_ok=True)
+    corp = os.path.join(outdir, "reminimise-corpus.json")
+    out = os.path.join(outdir, "reminimise-report.json")
+    with open(corp, "w") as f:
+        json.dump([v.get("original_case") or v["case"] for v in violations], f)
+    cmd = [RXV, "run", "--prop", prop, "--tier", "quick", "--seed", "1", "--shard", "0", "--nshards", "1000000", "--scale", "0.000001", "--corpus", corp, "--max-shrink", str(len(violations) + 200), "--out", out, "--time-cap", "1200"]
+    try:
+        subprocess.run(cmd, stdout=subprocess.DEVNULL, stderr=subprocess.DEVNULL, env=dict(ENV, RXV_REPO=REPO), timeout=1500)
+        with open(out) as f:
+            rep = json.load(f)
+    except Exception:
+        return violations
+    by_orig = {}
+    for m in rep.get("violations", []):
+        key = (m["kind"], json.dumps(m.get("original_case") or m["case"], sort_keys=True))
+        by_orig.setdefault(key, m)
+    res = []
+    for v in violations:
+        key = (v["kind"], json.dumps(v.get("original_case") or v["case"], sort_keys=True))
+        res.append(by_orig.get(key, v))
+    return res
 
 
 def attribute(prop, known, violations):
@@ -734,12 +762,32 @@ def check(prop, tier, seed, record_canaries=False):
         else:
             seeded_witnesses.append(v)
     # seeded phase: structural signature, confirmed by switching off the blamed mechanism (hook H5)
+    pending = []
     for v, (hit, how) in zip(seeded_witnesses, attribute(prop, known, seeded_witnesses)):
-        attribution_how[how] = attribution_how.get(how, 0) + 1
         if hit:
+            attribution_how[how] = attribution_how.get(how, 0) + 1
             known_hits.setdefault(hit["id"], {"finding": hit, "count": 0, "example": v})
             known_hits[hit["id"]]["count"] += 1
+        elif not v.get("shrink_complete", True):
+            pending.append(v)
         else:
+            attribution_how[how] = attribution_how.get(how, 0) + 1
+            unknown.append(v)
+    # witnesses the workers did not minimise (their per-shard budget was used up) and that no
+    # finding explains as they stand: minimise them now and try once more on the minimal form
+    if pending:
+        reminimised = reminimise(prop, pending[:400], outdir)
+        second = attribute(prop, known, reminimised)
+        for v, (hit, how) in zip(reminimised, second):
+            how = how + "_after_reminimisation"
+            attribution_how[how] = attribution_how.get(how, 0) + 1
+            if hit:
+                known_hits.setdefault(hit["id"], {"finding": hit, "count": 0, "example": v})
+                known_hits[hit["id"]]["count"] += 1
+            else:
+                unknown.append(v)
+        for v in pending[400:]:
+            attribution_how["none"] = attribution_how.get("none", 0) + 1
             unknown.append(v)
 
     for fid, h in sorted(known_hits.items()):
